@@ -67,6 +67,11 @@ func Generate(r *lp.Rng, o Opts) *Design {
 	if o.Security {
 		g.schemes()
 	}
+	if o.Errors && r.Intn(2) == 0 {
+		// API level: an error definition methods may refer to by name, and status mappings by name
+		g.d.Errors = append(g.d.Errors, &ErrDef{Name: "api_down", Fault: true}, &ErrDef{Name: "svc_err"})
+		g.d.APIHTTP = append(g.d.APIHTTP, &ErrResp{Name: "api_down", Code: 502}, &ErrResp{Name: "svc_err", Code: 500})
+	}
 	ns := 1 + r.Intn(o.MaxSvc)
 	for i := 0; i < ns; i++ {
 		g.service(i)
@@ -182,6 +187,9 @@ func (g *gen) validation(prim string, idx int) *Validation {
 	case 4:
 		return &Validation{Enum: []any{"one", "two", "t h r e e"}}
 	case 5:
+		if idx >= 0 {
+			return &Validation{Format: formats[(idx/8)%len(formats)]} // every format in turn
+		}
 		return &Validation{Format: lp.Pick(r, formats)}
 	case 6:
 		return &Validation{Format: "date", MinLen: ip(1)}
@@ -351,6 +359,12 @@ func (g *gen) userType(depth int) string {
 	name := lp.Pick(g.r, typeNames) + fmt.Sprint(g.tnum)
 	td := &TypeDef{Name: name, Kind: "type"}
 	g.d.Types = append(g.d.Types, td)
+	if g.r.Intn(6) == 0 {
+		// the only validation of this type sits on a map key
+		key := &Att{Type: &Type{Prim: "String"}, Val: lp.Pick(g.r, []*Validation{{Pattern: "^[a-z]+$"}, {MaxLen: ip(3)}, {MinLen: ip(2)}, {Enum: []any{"one", "two"}}})}
+		td.Att = &Att{Type: &Type{IsObject: true, Object: []*Field{{Name: "labels", Att: &Att{Type: &Type{MapKey: key, MapElem: g.primAtt(lp.Pick(g.r, []string{"String", "Int", "Boolean"}), false, -1)}}}}}}
+		return name
+	}
 	td.Att = g.objectAtt(depth, 1+g.r.Intn(3), true)
 	if g.r.Intn(4) == 0 {
 		// recursive reference (optional, or it could never be built)
@@ -374,7 +388,13 @@ func (g *gen) service(i int) {
 	}
 	if g.o.Errors && g.r.Intn(2) == 0 {
 		s.Errors = append(s.Errors, &ErrDef{Name: "svc_err", Temporary: g.r.Intn(2) == 0})
-		s.HTTPErrors = append(s.HTTPErrors, &ErrResp{Name: "svc_err", Code: 503})
+		if len(g.d.APIHTTP) == 0 || g.r.Intn(3) != 0 {
+			s.HTTPErrors = append(s.HTTPErrors, &ErrResp{Name: "svc_err", Code: 503})
+		} // else: only the API level maps svc_err
+		if g.r.Intn(2) == 0 {
+			s.Errors = append(s.Errors, &ErrDef{Name: "svc_busy", Temporary: true, Timeout: g.r.Intn(2) == 0})
+			s.HTTPErrors = append(s.HTTPErrors, &ErrResp{Name: "svc_busy", Code: 429})
+		}
 	}
 	if g.o.Security && len(g.d.Schemes) > 0 && g.r.Intn(2) == 0 {
 		// service level requirement; methods need the credentials in their payloads
@@ -495,7 +515,11 @@ func (g *gen) method(s *Service, name string, cell int) {
 			}
 			a = g.primAtt(prim, true, -1)
 			g.requiredOrDefault(payload, an, a)
-			h.Cookies = append(h.Cookies, Mapped{Attr: an})
+			ck := Mapped{Attr: an}
+			if r.Intn(3) == 0 {
+				ck.Wire = "SID-" + an
+			}
+			h.Cookies = append(h.Cookies, ck)
 		default:
 			a = g.bodyType(2)
 			g.requiredOrDefault(payload, an, a)
@@ -543,10 +567,45 @@ func (g *gen) method(s *Service, name string, cell int) {
 	}
 
 	// result
-	switch r.Intn(5) {
-	case 0:
-	case 1:
+	switch shape := r.Intn(9); {
+	case shape == 0:
+	case shape == 1:
 		m.Result = g.primAtt(lp.Pick(r, primNames), false, -1)
+	case shape == 2:
+		// every result attribute travels in a response cookie (no body)
+		res := &Att{Type: &Type{IsObject: true}}
+		resp := &Resp{Code: lp.Pick(r, []int{200, 202})}
+		for i, an := range []string{"session", "token"}[:1+r.Intn(2)] {
+			a := g.primAtt("String", false, -1)
+			if i == 0 || r.Intn(2) == 0 {
+				res.Required = append(res.Required, an)
+			}
+			res.Type.Object = append(res.Type.Object, &Field{Name: an, Att: a})
+			resp.Cookies = append(resp.Cookies, Mapped{Attr: an, Wire: []string{"SID", "XSRF-TOKEN"}[i]})
+		}
+		m.Result = res
+		h.Responses = append(h.Responses, resp)
+	case shape == 3:
+		// responses selected by the value of a tag attribute
+		res := &Att{Type: &Type{IsObject: true}}
+		tag := "outcome"
+		ta := &Att{Type: &Type{Prim: "String"}, Val: &Validation{Enum: []any{"created", "accepted", "other"}}}
+		if r.Intn(3) == 0 {
+			res.Required = append(res.Required, tag)
+		}
+		res.Type.Object = append(res.Type.Object, &Field{Name: tag, Att: ta})
+		rused := map[string]bool{tag: true}
+		for i := r.Intn(3); i > 0; i-- {
+			an := g.pickName(rused, attrNames)
+			a := g.bodyType(1)
+			g.requiredOrDefault(res, an, a)
+			res.Type.Object = append(res.Type.Object, &Field{Name: an, Att: a})
+		}
+		m.Result = res
+		h.Responses = append(h.Responses,
+			&Resp{Code: 201, Tag: []string{tag, "created"}},
+			&Resp{Code: 202, Tag: []string{tag, "accepted"}},
+			&Resp{Code: 200})
 	default:
 		res := &Att{Type: &Type{IsObject: true}}
 		rused := map[string]bool{}
@@ -561,7 +620,11 @@ func (g *gen) method(s *Service, name string, cell int) {
 					prim = "String"
 				}
 				a = g.primAtt(prim, false, -1)
-				resp.Headers = append(resp.Headers, Mapped{Attr: an, Wire: "X-Res-" + strings.ReplaceAll(an, "_", "-")})
+				if prim == "String" && r.Intn(3) == 0 {
+					resp.Cookies = append(resp.Cookies, Mapped{Attr: an, Wire: "RC-" + an})
+				} else {
+					resp.Headers = append(resp.Headers, Mapped{Attr: an, Wire: "X-Res-" + strings.ReplaceAll(an, "_", "-")})
+				}
 			} else {
 				a = g.bodyType(2)
 			}
@@ -569,13 +632,24 @@ func (g *gen) method(s *Service, name string, cell int) {
 			res.Type.Object = append(res.Type.Object, &Field{Name: an, Att: a})
 		}
 		m.Result = res
-		if len(resp.Headers) > 0 || resp.Code != 200 {
+		if len(resp.Headers) > 0 || len(resp.Cookies) > 0 || resp.Code != 200 {
 			h.Responses = append(h.Responses, resp)
 		}
 	}
 	// errors
 	if g.o.Errors {
 		ne := r.Intn(3)
+		if len(s.Errors) > 0 && r.Intn(3) == 0 {
+			h.Errors = append(h.Errors, &ErrResp{Name: s.Errors[0].Name, Code: 403}) // the method remaps a service-level error
+		}
+		if len(g.d.APIHTTP) > 0 && r.Intn(2) == 0 {
+			m.Errors = append(m.Errors, &ErrDef{Name: "api_down", Fault: true}) // status from the API level mapping
+		}
+		if r.Intn(4) == 0 {
+			// an error of primitive type sharing a status with other errors
+			m.Errors = append(m.Errors, &ErrDef{Name: "text_err", Type: &Att{Type: &Type{Prim: "String"}}})
+			h.Errors = append(h.Errors, &ErrResp{Name: "text_err", Code: 409})
+		}
 		for i := 0; i < ne; i++ {
 			en := []string{"not_found", "bad_thing", "busy"}[i]
 			ed := &ErrDef{Name: en, Temporary: i == 2, Timeout: i == 2 && r.Intn(2) == 0}
